@@ -85,7 +85,75 @@ int Explorer<FSM>::replay(const std::string& enc) {
 	return E::R().total ? 1 : 0;
 }
 
+#if VT_HAS_PAYLOAD
+// ---- C14: payloads reach the states they activate unchanged -----------------------------------------------------------
+template <typename FSM>
+template <typename TTransition>
+bool Explorer<FSM>::payloadOk(const TTransition& t, const Env& e, const std::string& where) {
+	const Pay* p = t.payload();
+	const int kind = Runner::kindOf(t.type);
+	const int origin = t.origin == hfsm2::INVALID_STATE_ID ? -1 : (int) t.origin;
+	++counters["c14_transitions_inspected"];
+	auto fail = [&](const std::string& fp, const std::string& msg) {
+		if (cur) violation("C14", fp, where + ": transition " + (kind >= 0 ? KIND_NAMES[kind] : "?") + "(" + str((int) t.destination) + ") from S" + str(origin) + ": " + msg, *cur);
+		return false;
+	};
+	if (p) {
+		if (reinterpret_cast<uintptr_t>(p) % alignof(Pay) != 0) return fail("payload/misaligned", "payload() is not aligned for the payload type");
+		const int tag = payTag(*p);
+		if (tag == -777) return fail("payload/corrupted", "the payload value is not one the environment ever attached");
+		for (size_t i = e.trace.size(); i-- > 0;) {
+			const TraceEv& ev = e.trace[i];
+			if (ev.meth == E_REQUEST && ev.c == tag) {
+				if (ev.b != (int) t.destination || ev.a != kind || ev.state != origin) return fail("payload/mixed-up", "carries the payload that was attached to " + std::string(KIND_NAMES[ev.a]) + "(" + str(ev.b) + ") from S" + str(ev.state));
+				return true;
+			}
+			if (ev.meth == E_PLAN_APPEND && ev.ctl == tag) {
+				if (ev.c != (int) t.destination) return fail("payload/mixed-up-task", "carries the payload of the plan task " + str(ev.b) + "->" + str(ev.c));
+				return true;
+			}
+		}
+		return fail("payload/unknown", "carries payload tag " + str(tag) + " that no request or task of this instance was given");
+	}
+	// no payload: some payload-less request / task with this destination must exist
+	for (size_t i = e.trace.size(); i-- > 0;) {
+		const TraceEv& ev = e.trace[i];
+		if (ev.meth == E_REQUEST && ev.c == -1 && ev.b == (int) t.destination && ev.a == kind && ev.state == origin) return true;
+		if (ev.meth == E_PLAN_APPEND && ev.ctl == -1 && ev.c == (int) t.destination) return true;
+	}
+	return fail("payload/lost", "exposes no payload although every request with this origin, kind and destination carried one");
+}
+#endif
+
 template <typename FSM> void Explorer<FSM>::inCallbackMore(int kind, int state, int meth, void* control) {
+#if VT_HAS_PAYLOAD
+	if ((props & P_C14) && cur) {
+		const std::string where = "inside S" + str(state) + "." + METH_NAMES[meth];
+		if (kind == E::CB_GUARD) {
+			auto& c = *static_cast<typename E::GuardControl*>(control);
+			const Env& e = *c.context();
+			for (unsigned i = 0; i < c.pendingTransitions().count(); ++i) if (!payloadOk(c.pendingTransitions()[i], e, where + " pendingTransitions()[" + str(i) + "]")) break;
+			for (unsigned i = 0; i < c.currentTransitions().count(); ++i) if (!payloadOk(c.currentTransitions()[i], e, where + " currentTransitions()[" + str(i) + "]")) break;
+		} else if (kind == E::CB_LIFE) {
+			auto& c = *static_cast<typename E::PlanControl*>(control);
+			const Env& e = *c.context();
+			for (unsigned i = 0; i < c.currentTransitions().count(); ++i) if (!payloadOk(c.currentTransitions()[i], e, where + " currentTransitions()[" + str(i) + "]")) break;
+#if VT_HISTORY
+			if (meth == M_ENTER && cur->step.op.type != OP_RESET) {
+				// the transition that activates this state is visible while it is being entered
+				++counters["c14_enter_views"];
+			}
+#endif
+		} else if (kind == E::CB_FULL || kind == E::CB_EVENT) {
+#if VT_HISTORY
+			auto& c = *static_cast<typename E::FullControl*>(control);
+			const Env& e = *c.context();
+			if (const auto* t = c.lastTransition()) payloadOk(*t, e, where + " lastTransition()");
+			for (unsigned i = 0; i < c.previousTransitions().count(); ++i) if (!payloadOk(c.previousTransitions()[i], e, where + " previousTransitions()[" + str(i) + "]")) break;
+#endif
+		}
+	}
+#endif
 	if ((props & P_C13) && kind == E::CB_GUARD && cur && cur->step.script.empty() && cur->step.op.type == OP_IMMEDIATE) {
 		auto& c = *static_cast<typename E::GuardControl*>(control);
 		if (c.currentTransitions().count() == 0 && !c._cancelled && guardSnaps.size() < 64) {
@@ -100,6 +168,29 @@ template <typename FSM> void Explorer<FSM>::liveChecks(Runner& r, Exec& x) {
 #if VT_HISTORY
 	if (props & P_C09) checkC09(r, x);
 #endif
+#if VT_HAS_PAYLOAD && VT_HISTORY
+	if ((props & P_C14) && x.activatedAfter) {
+		const auto& pt = r.fsm->previousTransitions();
+		for (unsigned i = 0; i < pt.count(); ++i) if (!payloadOk(pt[i], r.env, "previousTransitions()[" + str(i) + "] after " + x.step.op.text())) break;
+		for (int s = 0; s < N; ++s) if (const auto* t = r.fsm->lastTransitionTo((hfsm2::StateID) s)) if (!payloadOk(*t, r.env, "lastTransitionTo(S" + str(s) + ") after " + x.step.op.text())) break;
+		++compared;
+	}
+#endif
+#if VT_STRUCT
+	if (props & P_C16) {
+		const auto& st = r.fsm->structure();
+		const auto& ah = r.fsm->activityHistory();
+		x.activityAfter.assign(N, 0);
+		for (int s = 0; s < N; ++s) x.activityAfter[s] = ah[s];
+		const Op& op = x.step.op;
+		if (op.type != OP_CONSTRUCT || !E::MANUAL)	// a manual machine that was never entered has no report yet
+			for (int s = 0; s < N; ++s) {
+				const bool act = r.fsm->isActive((hfsm2::StateID) s);
+				if (st[s].isActive != act) { violation("C16", op.type == OP_RESET ? "structure/stale-after-reset" : "structure/is-active", "after " + op.text() + " structure()[" + str(s) + "].isActive=" + (st[s].isActive ? "true" : "false") + " but isActive(S" + str(s) + ")=" + (act ? "true" : "false"), x); break; }
+				if ((act && ah[s] <= 0) || (!act && ah[s] >= 0)) { violation("C16", op.type == OP_RESET ? "structure/stale-after-reset" : "activity/sign", "after " + op.text() + " activityHistory()[" + str(s) + "]=" + str((int) ah[s]) + " for an " + (act ? "active" : "inactive") + " state", x); break; }
+			}
+	}
+#endif
 	pendingQuiescent.clear();
 	if ((props & P_C13) && x.activatedAfter) {
 		pendingQuiescent.assign(N, 0);
@@ -112,7 +203,271 @@ template <typename FSM> void Explorer<FSM>::afterExec(const Node& node, Exec& x)
 	if (props & P_C05) checkC05(node, x);
 	if (props & P_C04) checkC04(node, x);
 	if (props & P_C13) checkC13(node, x);
+#if VT_PLANS && VT_LOG
+	if (props & P_C06) checkC06(node, x);
+#endif
+#if VT_LOG
+	if (props & P_C16) checkC16(node, x);
+#endif
 }
+
+#if VT_LOG
+// ---- C16: the logger mirrors what the machine does ---------------------------------------------------------------------
+template <typename FSM>
+void Explorer<FSM>::checkC16(const Node&, Exec& x) {
+	// index the log entries of this step by the trace position at which they were written
+	std::multimap<size_t, const typename E::LogEv*> at;
+	for (const auto& l : x.log) if (l.at >= x.stepBegin && l.at <= x.stepEnd) at.insert({l.at, &l});
+	auto count = [&](size_t pos, int type, std::function<bool(const typename E::LogEv&)> pred) {
+		int n = 0;
+		auto r = at.equal_range(pos);
+		for (auto it = r.first; it != r.second; ++it) if (it->second->type == type && pred(*it->second)) ++n;
+		return n;
+	};
+	++compared;
+	std::set<const typename E::LogEv*> explained;
+	auto mark = [&](size_t pos, int type, std::function<bool(const typename E::LogEv&)> pred) {
+		auto r = at.equal_range(pos);
+		for (auto it = r.first; it != r.second; ++it) if (it->second->type == type && pred(*it->second)) { explained.insert(it->second); return; }
+	};
+	for (size_t i = x.stepBegin; i < x.stepEnd; ++i) {
+		const TraceEv& e = x.trace[i];
+		if (e.layer) continue;
+		if (e.meth <= M_PLAN_FAILED && e.state >= 0) {
+			// every user-defined callback the machine invokes is reported exactly once, just before it runs
+			auto pr = [&](const typename E::LogEv& l) { return l.a == e.state && l.b == (int) e.meth + 1; };
+			// handlers of injected bases that run before the own handler come between the report and the own handler
+			size_t i0 = i;
+			while (i0 > x.stepBegin && x.trace[i0 - 1].state == e.state && x.trace[i0 - 1].meth == e.meth && x.trace[i0 - 1].layer > 0) --i0;
+			const int n = count(i0, E::L_METHOD, pr);
+			if (n != 1) { violation("C16", n == 0 ? "method/not-logged" : "method/logged-twice", std::string("S") + str(e.state) + "." + METH_NAMES[e.meth] + " was invoked but recordMethod() was called " + str(n) + " times for it", x); return; }
+			mark(i0, E::L_METHOD, pr);
+			if (e.meth == M_SELECT) {
+				auto ps = [&](const typename E::LogEv& l) { return l.a == e.state && l.b == e.a; };
+				if (count(i + 1, E::L_SELECT_RES, ps) != 1) { violation("C16", "resolution/select", "select() of S" + str(e.state) + " answered " + str(e.a) + " but no matching recordSelectResolution() followed", x); return; }
+				mark(i + 1, E::L_SELECT_RES, ps);
+			}
+#if VT_PLANS
+			if (e.meth == M_PLAN_SUCCEEDED || e.meth == M_PLAN_FAILED) {
+				auto pp = [&](const typename E::LogEv& l) { return l.a == e.state && l.b == (e.meth == M_PLAN_SUCCEEDED ? 0 : 1); };
+				if (count(i, E::L_PLAN_STATUS, pp) != 1) { violation("C16", "status/plan", std::string(METH_NAMES[e.meth]) + "(S" + str(e.state) + ") was delivered without exactly one recordPlanStatus()", x); return; }
+				mark(i, E::L_PLAN_STATUS, pp);
+			}
+#endif
+		} else if (e.meth == E_REQUEST) {
+			auto pt = [&](const typename E::LogEv& l) { return (l.a == (int) hfsm2::INVALID_STATE_ID ? -1 : l.a) == e.state && Runner::kindOf((hfsm2::TransitionType) l.b) == e.a && l.c == e.b; };
+			const int n = count(i + 1, E::L_TRANSITION, pt);
+			if (n != 1) { violation("C16", n == 0 ? "transition/not-logged" : "transition/logged-twice", std::string("request ") + KIND_NAMES[e.a] + "(" + str(e.b) + ") from S" + str(e.state) + " was reported " + str(n) + " times", x); return; }
+			mark(i + 1, E::L_TRANSITION, pt);
+		} else if (e.meth == E_CANCEL) {
+			auto pc = [&](const typename E::LogEv& l) { return l.a == e.state; };
+			if (count(i + 1, E::L_CANCEL, pc) != 1) { violation("C16", "cancel/not-logged-once", "cancelPendingTransitions() in S" + str(e.state) + " was not reported exactly once", x); return; }
+			mark(i + 1, E::L_CANCEL, pc);
+		}
+#if VT_PLANS
+		else if ((e.meth == E_SUCCEED || e.meth == E_FAIL)) {
+			const int st = e.state >= 0 ? e.state : e.a;  // external: state in a
+			auto ps = [&](const typename E::LogEv& l) { return l.b == st && l.c == (e.meth == E_SUCCEED ? 0 : 1); };
+			if (st > 0 && count(i + 1, E::L_TASK_STATUS, ps) != 1) { violation("C16", "status/task", std::string(e.meth == E_SUCCEED ? "succeed" : "fail") + "(S" + str(st) + ") was not reported exactly once", x); return; }
+			mark(i + 1, E::L_TASK_STATUS, ps);
+		}
+#endif
+	}
+	// nothing is reported that did not happen
+	for (const auto& l : x.log) {
+		if (l.at < x.stepBegin || l.at > x.stepEnd || explained.count(&l)) continue;
+		if (l.type == E::L_METHOD) {
+			const int st = l.a;
+			// methods the state does not override (anonymous heads, lite probes): verbose mode reports them all, interface mode
+			// reports the templated react/query family regardless - tolerated, only counted
+			if (st >= 0 && st < N && (!E::named(st) || E::D(st).lite)) { ++counters["c16_reports_for_methods_not_overridden"]; continue; }
+			violation("C16", "method/logged-but-not-invoked", "recordMethod(S" + str(st) + ", " + hfsm2::methodName((hfsm2::Method) l.b) + ") without a matching callback invocation", x);
+			return;
+		}
+		if (l.type == E::L_TRANSITION) {
+			// requests the library issues itself come from plan executions: the origin must be a region head
+			const int o = l.a == (int) hfsm2::INVALID_STATE_ID ? -1 : l.a;
+			if (o >= 0 && o < N && E::isRegion(o)) continue;
+			violation("C16", "transition/logged-but-not-issued", "recordTransition(origin S" + str(o) + ", target S" + str(l.c) + ") without a matching request", x);
+			return;
+		}
+		if (l.type == E::L_CANCEL) { violation("C16", "cancel/logged-but-not-issued", "recordCancelledPending without a cancel", x); return; }
+	}
+#if VT_UTILITY
+	// random resolution reports the generator output that was drawn; utility resolution names a valid prong
+	for (const auto& l : x.log) {
+		if (l.at < x.stepBegin || l.at > x.stepEnd) continue;
+		if (l.type == E::L_RANDOM_RES || l.type == E::L_UTILITY_RES) {
+			if (l.a >= 0 && l.a < N && E::isOrtho(l.a)) continue;  // an orthogonal region reports its mean utility, no prong
+			if (l.a < 0 || l.a >= N || !E::isCompo(l.a) || l.b < 0 || l.b >= E::D(l.a).width) { violation("C16", "resolution/bad-prong", "utility/random resolution reported for S" + str(l.a) + " with prong " + str(l.b), x); return; }
+#if VT_USE_SCRIPT_RNG
+			if (l.type == E::L_RANDOM_RES) {
+				int alt = 0;
+				for (const Choice& c : x.step.script) if (c.key.meth == E_RNG) alt = c.alt;
+				if (l.u != RNG_MENU[alt]) { violation("C16", "resolution/random-value", "recordRandomResolution reported " + str(l.u) + " but the generator returned " + str(RNG_MENU[alt]), x); return; }
+			}
+#endif
+		}
+	}
+#endif
+}
+#endif
+
+#if VT_PLANS && VT_LOG
+// ---- C06: plans run tasks in order and report success / failure to the region head -------------------------------
+template <typename FSM>
+void Explorer<FSM>::checkC06(const Node&, Exec& x) {
+	const Op& op = x.step.op;
+	if (!x.activatedBefore || !x.activatedAfter) return;
+	const bool stepping = op.type == OP_UPDATE || op.type == OP_REACT || op.type == OP_BATCH;
+	// success / failure marks never survive the step that consumed them or the exit of their state
+	if (stepping)
+		for (int s = 1; s < N; ++s)
+			if (x.after.succMark[s] || x.after.failMark[s]) { violation("C06", "marks/survive-step", "the " + std::string(x.after.succMark[s] ? "success" : "failure") + " mark of S" + str(s) + " survived " + op.text(), x); return; }
+	for (size_t i = x.stepBegin; i < x.stepEnd; ++i) {
+		const TraceEv& e = x.trace[i];
+		if (e.meth == M_EXIT && e.layer == 0 && !x.after.active[e.state] && (x.after.succMark[e.state] || x.after.failMark[e.state])) { violation("C06", "marks/survive-exit", "a mark of S" + str(e.state) + " survived its exit", x); return; }
+	}
+	if (!stepping) return;
+	// requests issued by the library itself (plan executions) = logged transitions that the environment did not issue
+	struct Exe { int head, kind, dest; size_t at; };
+	std::vector<Exe> exes;
+	for (const auto& l : x.log) {
+		if (l.type != E::L_TRANSITION || l.at <= x.stepBegin || l.at > x.stepEnd) continue;
+		const TraceEv& prev = x.trace[l.at - 1];
+		const int origin = l.a == (int) hfsm2::INVALID_STATE_ID ? -1 : l.a;
+		const int kind = Runner::kindOf((hfsm2::TransitionType) l.b);
+		if (prev.meth == E_REQUEST && prev.state == origin && prev.a == kind && prev.b == l.c) continue;
+		exes.push_back(Exe{origin, kind, l.c, l.at});
+	}
+	bool anyPlan = !exes.empty();
+	for (int r = 0; r < VT_COUNTS.regions; ++r) if (x.before.planExists[r]) anyPlan = true;
+	bool planEvents = false;
+	for (size_t i = x.stepBegin; i < x.stepEnd; ++i) { const int m = x.trace[i].meth; if (m == E_PLAN_APPEND || m == E_PLAN_CLEAR || m == E_SUCCEED || m == E_FAIL || m == M_PLAN_SUCCEEDED || m == M_PLAN_FAILED) planEvents = true; }
+	for (int s = 1; s < N; ++s) if (x.before.succMark[s] || x.before.failMark[s]) planEvents = true;
+	if (!anyPlan && !planEvents) return;
+	++compared;
+	++counters["c06_steps_judged"];
+	// region id -> head state
+	std::vector<int> headOf(VT_COUNTS.regions, -1);
+	for (int s = 0; s < N; ++s) if (E::D(s).region >= 0) headOf[E::D(s).region] = s;
+	// success / failure sets of the step (own handlers, external marks pending from before, default propagation)
+	struct Mark { int state; bool succ; bool propagated; size_t at; };
+	std::vector<Mark> marks;
+	for (int s = 1; s < N; ++s) { if (x.before.succMark[s]) marks.push_back(Mark{s, true, false, x.stepBegin}); if (x.before.failMark[s]) marks.push_back(Mark{s, false, false, x.stepBegin}); }
+	for (size_t i = x.stepBegin; i < x.stepEnd; ++i) {
+		const TraceEv& e = x.trace[i];
+		if ((e.meth == E_SUCCEED || e.meth == E_FAIL) && e.state >= 0) marks.push_back(Mark{e.state, e.meth == E_SUCCEED, e.a == 1, i});
+	}
+	auto succeededBefore = [&](int s, size_t at) { for (const Mark& m : marks) if (m.state == s && m.succ && m.at < at) return true; return false; };
+	// model of the plans during the step: start from the snapshot, apply the environment's edits in trace order
+	std::vector<std::vector<Snap::TaskInfo>> model = x.before.plans;
+	std::vector<uint8_t> exists = x.before.planExists;
+	size_t cursor = x.stepBegin;
+	auto applyEditsUpTo = [&](size_t at) {
+		for (; cursor < at && cursor < x.stepEnd; ++cursor) {
+			const TraceEv& e = x.trace[cursor];
+			if (e.meth == E_PLAN_APPEND && (e.d & 1)) { model[e.d / 2].push_back(Snap::TaskInfo{e.b, e.c, e.a, -1, e.ctl >= 0, e.ctl}); exists[e.d / 2] = 1; }
+			else if (e.meth == E_PLAN_APPEND) exists[e.d / 2] = 1;
+			else if (e.meth == E_PLAN_CLEAR) model[e.d].clear();
+		}
+	};
+	// ---- safety: every execution is justified by a task
+	std::vector<std::vector<Snap::TaskInfo>> executed(VT_COUNTS.regions);
+	for (const Exe& ex : exes) {
+		applyEditsUpTo(ex.at);
+		if (ex.head < 0 || E::D(ex.head).region < 0) { violation("C06", "task/request-not-from-a-region-head", "the library issued " + std::string(KIND_NAMES[ex.kind < 0 ? 0 : ex.kind]) + "(" + str(ex.dest) + ") on behalf of S" + str(ex.head) + ", which is not a region head", x); return; }
+		const int R = E::D(ex.head).region;
+		std::vector<Snap::TaskInfo>& plan = model[R];
+		// the executor walks the plan in order while origins are active and takes every task whose origin reported success
+		int found = -1; std::string why = "no task of that plan leads to S" + str(ex.dest);
+		for (size_t i = 0; i < plan.size(); ++i) {
+			const Snap::TaskInfo& t = plan[i];
+			if (!x.before.active[t.origin]) { why = "the only matching tasks come after a task whose origin S" + str(t.origin) + " is inactive"; break; }
+			if (t.dest != ex.dest) continue;
+			if (!succeededBefore(t.origin, ex.at)) { why = "origin S" + str(t.origin) + " of the matching task did not report success in this step"; continue; }
+			found = (int) i; break;
+		}
+		if (found < 0) {
+			violation("C06", "task/unjustified-execution", "plan of region S" + str(ex.head) + ": " + KIND_NAMES[ex.kind < 0 ? 0 : ex.kind] + "(" + str(ex.dest) + ") was requested on behalf of the head, but " + why, x);
+			return;
+		}
+		if (plan[found].kind != ex.kind)
+			violation("C06", "task/wrong-kind", "plan of region S" + str(ex.head) + ": task S" + str(plan[found].origin) + "->S" + str(plan[found].dest) + " was created as " + KIND_NAMES[plan[found].kind] + " but " +
+					  KIND_NAMES[ex.kind < 0 ? 0 : ex.kind] + "(" + str(ex.dest) + ") was requested", x);
+		executed[R].push_back(plan[found]);
+		plan.erase(plan.begin() + found);
+	}
+	applyEditsUpTo(x.stepEnd);
+	// executed tasks are gone afterwards (never twice)
+	for (int R = 0; R < VT_COUNTS.regions; ++R)
+		for (const Snap::TaskInfo& t : executed[R]) {
+			int after = 0, expect = 0;
+			for (const Snap::TaskInfo& u : x.after.plans[R]) if (u.origin == t.origin && u.dest == t.dest && u.kind == t.kind) ++after;
+			for (const Snap::TaskInfo& u : model[R]) if (u.origin == t.origin && u.dest == t.dest && u.kind == t.kind) ++expect;
+			if (after > expect) { violation("C06", "task/not-removed", "task S" + str(t.origin) + "->S" + str(t.dest) + " of region S" + str(headOf[R]) + " was executed but is still in the plan", x); return; }
+		}
+	// ---- liveness in the unambiguous class
+	for (int R = 0; R < VT_COUNTS.regions; ++R) {
+		const int h = headOf[R];
+		if (h < 0 || !exists[R] || !x.before.active[h]) continue;
+		const int lo = h, hi = h + E::D(h).size;
+		bool envReqInside = false, innerOuter = false, headTouched = false;
+		for (size_t i = x.stepBegin; i < x.stepEnd; ++i) {
+			const TraceEv& e = x.trace[i];
+			if (e.meth == E_REQUEST && e.a != T_SCHEDULE && e.state >= lo && e.state < hi) envReqInside = true;
+			if (e.meth == E_REQUEST && e.state < 0) envReqInside = true;  // externally queued requests are processed with the step
+			if ((e.meth == E_PLAN_APPEND || e.meth == E_PLAN_CLEAR)) envReqInside = true;  // plans edited inside the step: order-dependent, not judged
+		}
+		for (const Exe& ex : exes) if (ex.head != h && ex.head >= lo && ex.head < hi) { const int l2 = ex.head, h2 = ex.head + E::D(ex.head).size; if (ex.dest < l2 || ex.dest >= h2) innerOuter = true; }
+		for (const Mark& m : marks) if (m.state == h && !m.propagated) headTouched = true;
+		// marks deeper than the direct sub-states travel up through regions without a plan: not judged here
+		bool deepMark = false;
+		for (const Mark& m : marks) if (m.state > lo && m.state < hi && E::D(m.state).parent != h) deepMark = true;
+		if (envReqInside || innerOuter || headTouched || deepMark) continue;
+		// witnesses for the known status-sharing findings
+		bool ancestorHead = false;
+		for (int a = E::D(h).parent; a >= 0; a = E::D(a).parent) for (const Mark& m : marks) if (m.state == a) ancestorHead = true;
+		auto inPostPhase = [&](const Mark& m) { for (size_t i = m.at; i-- > x.stepBegin;) { const TraceEv& e = x.trace[i]; if (e.meth <= M_PLAN_FAILED && e.layer == 0) return e.meth == M_POST_UPDATE || e.meth == M_POST_REACT || (VT_BOTTOM_UP && (e.meth == M_PRE_REACT || e.meth == M_REACT)); } return false; };
+		bool postPhase = false;
+		for (const Mark& m : marks) if (m.state > lo && m.state < hi && !m.propagated && m.at > x.stepBegin && inPostPhase(m)) postPhase = true;
+		const std::string wit = ancestorHead ? "/enclosing-head-reported-status" : postPhase ? "/sub-state-reported-in-a-pass-that-visits-the-head-last" : "";
+		std::vector<int> directSucc, directFail;
+		for (int p = 0; p < E::D(h).width; ++p) {
+			const int c = E::child(h, p);
+			if (!x.before.active[c]) continue;
+			for (const Mark& m : marks) if (m.state == c) (m.succ ? directSucc : directFail).push_back(c);
+		}
+		auto got = [&](int meth) { for (size_t i = x.stepBegin; i < x.stepEnd; ++i) if (x.trace[i].meth == meth && x.trace[i].state == h) return true; return false; };
+		++counters["c06_liveness_cases"];
+		if (!directFail.empty()) {
+			if (E::named(h) && !got(M_PLAN_FAILED)) { violation("C06", "liveness/plan-failed-not-delivered" + wit, "sub-state S" + str(directFail[0]) + " of plan-owning region S" + str(h) + " failed, the head did not receive planFailed", x); return; }
+			continue;
+		}
+		if (directSucc.empty()) continue;
+		// the plan as it was when the step began (no edits inside the step in this class)
+		const std::vector<Snap::TaskInfo>& plan0 = x.before.plans[R];
+		if (plan0.empty()) {
+			if (E::named(h) && !got(M_PLAN_SUCCEEDED)) { violation("C06", "liveness/plan-succeeded-not-delivered" + wit, "sub-state S" + str(directSucc[0]) + " of region S" + str(h) + " succeeded and the attached plan is empty, the head did not receive planSucceeded", x); return; }
+			continue;
+		}
+		std::set<int> doneOrigins;
+		for (const Snap::TaskInfo& t : plan0) {
+			if (!x.before.active[t.origin]) break;
+			bool succ = false;
+			for (const Mark& m : marks) if (m.state == t.origin && m.succ) succ = true;
+			if (!succ || doneOrigins.count(t.origin)) continue;
+			doneOrigins.insert(t.origin);
+			bool ran = false;
+			for (const Snap::TaskInfo& u : executed[R]) if (u.origin == t.origin && u.dest == t.dest) ran = true;
+			if (!ran) {
+				violation("C06", "liveness/task-not-executed" + wit, "origin S" + str(t.origin) + " succeeded, the head S" + str(h) + " stayed silent and no transition left the region, yet task S" + str(t.origin) + "->S" + str(t.dest) + " was not executed", x);
+				return;
+			}
+		}
+	}
+}
+#endif
 
 // ---- rounds of one processing call, reconstructed from the guard callbacks ---------------------------------
 template <typename FSM>
@@ -715,6 +1070,26 @@ void Explorer<FSM>::checkC09(Runner& r, Exec& x) {
 
 // ---- C10 (a)(c): per reachable state - storage pre-fill independence and copies -------------------------------------
 template <typename FSM> void Explorer<FSM>::perState(const Node& n) {
+#if VT_PLANS
+	if ((props & (P_C06 | P_C14)) && n.activated && n.key.find("|P") == std::string::npos && n.key.find("|M") == std::string::npos && opt.mode == "plans") planScenarios(n);
+#endif
+#if VT_LOG
+	if (props & P_C16) {
+		// attaching or detaching a logger never changes behaviour: every base edge with and without the logger
+		const unsigned savedProps = props;
+		for (const Op& op : baseAlphabet(n)) {
+			Exec a, b;
+			props = P_C16; noMonitors = true; run(n, Step{op, {}}, a);
+			noLogger = true; run(n, Step{op, {}}, b); noLogger = false; noMonitors = false;
+			props = savedProps;
+			++compared;
+			bool same = a.keyAfter == b.keyAfter && a.trace.size() == b.trace.size();
+			for (size_t i = 0; same && i < a.trace.size(); ++i) same = a.trace[i].state == b.trace[i].state && a.trace[i].meth == b.trace[i].meth && a.trace[i].a == b.trace[i].a && a.trace[i].b == b.trace[i].b;
+			if (!same) violation("C16", "logger/changes-behaviour", "the same step behaves differently with and without an attached logger", a);
+			if (!b.log.empty()) violation("C16", "logger/detached-still-called", "a detached logger received reports", b);
+		}
+	}
+#endif
 	if (!(props & P_C10)) return;
 	auto sameRun = [&](const Exec& a, const Exec& b) {
 		if (a.keyAfter != b.keyAfter || a.trace.size() != b.trace.size() || a.after.active != b.after.active || a.after.resumable != b.after.resumable) return false;
@@ -793,8 +1168,76 @@ template <typename FSM> void Explorer<FSM>::copyCheck(const Node& n, const Op& o
 	free(mem2);
 }
 
+#if VT_PLANS
+// plan scenarios: from a plan-free quiescent state, attach tasks (every single task, every ordered pair in one region,
+// pairs across two regions), optionally set an external mark, then step with every choice vector within the bound.
+template <typename FSM> void Explorer<FSM>::planScenarios(const Node& n) {
+	std::vector<Op> labels;
+	for (int s = 0; s < N; ++s) {
+		if (E::D(s).region < 0 || E::D(s).width < 1) continue;
+		const int w = E::D(s).width, R = E::D(s).region;
+		const int c0 = E::child(s, 0), c1 = E::child(s, w > 1 ? 1 : 0), c2 = E::child(s, w > 2 ? 2 : 0);
+		auto mk = [&](int kind, int o, int d) { Op op; op.type = OP_PLAN_APPEND; op.arg = (int16_t) R; op.r[0] = Req{(int8_t) kind, (int16_t) o}; op.r[1] = Req{0, (int16_t) d}; labels.push_back(op); };
+		mk(T_CHANGE, c0, c1); mk(T_RESTART, c1, c0); mk(T_CHANGE, c0, c0); mk(T_RESUME, c0, c2);
+		if (opt.tier == "thorough") { mk(T_SCHEDULE, c1, c1); mk(T_CHANGE, c1, s == 0 ? c2 : 0); }
+	}
+	std::vector<std::vector<Op>> setups;
+	setups.push_back({});
+	for (const Op& a : labels) setups.push_back({a});
+	for (const Op& a : labels) for (const Op& b : labels) if (a.arg == b.arg || opt.tier == "thorough") setups.push_back({a, b});
+	std::deque<Node> sink;
+	const int savedBatch = opt.batch;
+	for (const std::vector<Op>& setup : setups) {
+		if (timeUp()) break;
+		Node m = n;
+		bool act = n.activated;
+		for (const Op& o : setup) { m.hist.push_back(Step{o, {}}); act = activationAfter(act, o); }
+		m.key.clear();	// key after the setup is recomputed by the first run
+		m.depth = n.depth + (int) setup.size();
+		for (int which = 0; which < 2; ++which) {
+			Op step; step.type = which ? OP_REACT : OP_UPDATE;
+			exploreStep(m, step, sink, opt.dev);
+			sink.clear();
+		}
+		++counters["c06_plan_scenarios"];
+	}
+	opt.batch = savedBatch;
+}
+#endif
+
 // ---- after the fixpoint: C08 (all ordered pairs of reachable states), C10 (b) interleaved instances ------------------
 template <typename FSM> void Explorer<FSM>::finish() {
+#if VT_STRUCT
+	if (props & P_C16) {
+		// activityHistory() recurrence incl. saturation: a 300-step deterministic tail, one report update per step
+		Runner r;
+		r.env.monitoring = false;
+		Step c; c.op.type = OP_CONSTRUCT; r.apply(c, 0);
+#if VT_MANUAL
+		Step en; en.op.type = OP_ENTER; r.apply(en, 0);
+#endif
+		std::vector<int> prev(N, 0);
+		for (int s = 0; s < N; ++s) prev[s] = r.fsm->activityHistory()[s];
+		History h{c};
+		for (int k = 0; k < 300; ++k) {
+			Step st; st.op.type = OP_IMMEDIATE; st.op.n = 1;
+			const int target = (k / 7) % 2 ? (N > 2 ? 2 : 1) : 1;  // dwell 7 steps, then move: both signs saturate and flip
+			st.op.r[0] = Req{(int8_t) T_CHANGE, (int16_t) (k < 280 ? 1 : target)};
+			r.apply(st, 0);
+			if (h.size() < 6) h.push_back(st);
+			++compared;
+			for (int s = 0; s < N; ++s) {
+				const bool act = r.fsm->isActive((hfsm2::StateID) s);
+				const int old = prev[s];
+				const int want = act ? (old < 0 ? 1 : std::min(old + 1, 127)) : (old > 0 ? -1 : std::max(old - 1, -128));
+				const int got = r.fsm->activityHistory()[s];
+				if (got != want) { E::R().violation("C16", "activity/recurrence", "step " + str(k) + " of the tail: activityHistory()[" + str(s) + "] went from " + str(old) + " to " + str(got) + ", expected " + str(want), h); k = 300; break; }
+				prev[s] = got;
+			}
+		}
+		++counters["c16_activity_tail_steps"];
+	}
+#endif
 #if VT_SERIAL
 	if (props & P_C08) checkC08();
 #endif
